@@ -390,7 +390,8 @@ struct KState {
 enum HSlot {
     Unused,
     Adding(AddFut),
-    Live(zbus::MessageStream),
+    /// kept alive (never polled) until `D` drops it
+    Live(#[allow(dead_code)] zbus::MessageStream),
     Gone,
 }
 
